@@ -35,6 +35,9 @@ structure SubInfo where
   grantedAt : Nat := 0
   /-- the forwarding task was reported done (v1) -/
   done : Bool := false
+  /-- a converter call of this subscription produced `Some` while its actor was stopped:
+  the send failed, the subscription must have been dropped -/
+  rejected : Bool := false
 
 structure St where
   isV2 : Bool := false
@@ -45,9 +48,17 @@ structure St where
   stopped : List Nat := []
   /-- v2: something was enqueued since the port task last parked -/
   dirty : Bool := false
+  /-- (key used in the ops, ordinal of the subscription in the model): they differ only in
+  shrunk replays, where some `sub` ops were deleted -/
+  keyMap : List (Nat × Nat) := []
 
-def showCalls (cs : List (Call Nat)) : String :=
-  if cs.isEmpty then "-" else ",".intercalate (cs.map fun c => s!"{c.key}:{c.msg}")
+/-- model ordinal of an op key -/
+def St.toModel (st : St) (k : Nat) : Option Nat := (st.keyMap.find? (·.1 == k)).map (·.2)
+/-- op key of a model ordinal -/
+def St.toOp (st : St) (k : Nat) : Nat := ((st.keyMap.find? (·.2 == k)).map (·.1)).getD k
+
+def showCalls (st : St) (cs : List (Call Nat)) : String :=
+  if cs.isEmpty then "-" else ",".intercalate (cs.map fun c => s!"{st.toOp c.key}:{c.msg}")
 
 def showCallsOk (cs : List (Call Nat)) : String :=
   if cs.isEmpty then "-" else ",".intercalate (cs.map fun c => s!"{c.key}:{c.msg}:{if c.ok then 1 else 0}")
@@ -76,6 +87,35 @@ def oracleSeq (st : St) (key : Nat) (impl : String) : List String :=
       (if !(alive && parked) || recentOk ringCap i.conv after got then [] else ["recent"])
   | none, _ => []
   | _, none => ["unparsable"]
+
+/-- `calls=<k:m,…>` of the implementation's observation of a grant -/
+def parseCalls? (impl : String) : Option (List (Nat × Nat)) :=
+  match (words impl).find? (·.startsWith "calls=") with
+  | none => none
+  | some w =>
+    let body := (w.drop 6).toString
+    if body == "-" then some []
+    else (splitOnChar body ',').mapM fun p =>
+      match splitOnChar p ':' with
+      | [k, m] => do pure (← k.toNat?, ← m.toNat?)
+      | _ => none
+
+/-- (dropped) judged on the implementation's own converter calls: once a send to a stopped
+subscriber has failed, that subscription's converter is never called again. Returns the
+updated bookkeeping and the violations. -/
+def oracleCalls (st : St) (impl : String) : List SubInfo × List String :=
+  match parseCalls? impl with
+  | none => (st.subs, ["unparsable"])
+  | some cs =>
+    cs.foldl (fun (acc : List SubInfo × List String) (km : Nat × Nat) =>
+      let (subs, bad) := acc
+      match subs.find? (·.key == km.1) with
+      | none => (subs, bad ++ ["unknown-subscription"])
+      | some i =>
+        let bad := if i.rejected then bad ++ ["dead-dropped"] else bad
+        let rej := (i.conv km.2).isSome && st.stopped.contains i.actor
+        (subs.map fun j => if j.key == km.1 then { j with rejected := j.rejected || rej } else j, bad))
+      (st.subs, [])
 
 /-- `id:key:conv` -/
 def parseSpec? (s : String) : Option (Sub Nat Nat) :=
@@ -119,15 +159,14 @@ def step (st : St) (op impl : String) : St × StepOut :=
     | some key, some actor, some c =>
       let info : SubInfo := { key := key, actor := actor, conv := c, pstart := st.pubs.length,
                               grantedAt := st.pubs.length }
-      let st' := { st with subs := st.subs ++ [info], dirty := true }
-      if st.isV2 then
-        let s2 := st.s2.subscribe actor c
-        -- the harness numbers subscriptions 0,1,2…, like the model's `nsub`
-        ({ st' with s2 := s2 }, { model := if st.s2.nsub == key then "ok" else "key-mismatch" })
+      let ord := if st.isV2 then st.s2.nsub else st.s1.fwds.length
+      let st' := { st with subs := st.subs ++ [info], dirty := true, keyMap := st.keyMap ++ [(key, ord)] }
+      if (st.toModel key).isSome then (st, { model := "duplicate-key" })
+      else if st.isV2 then
+        ({ st' with s2 := st.s2.subscribe actor c }, { model := "ok" })
       else
         let s1 := st.s1.subscribe actor c
-        ({ st' with s1 := s1 },
-         { model := if st.s1.fwds.length == key then v1Counts s1 else "key-mismatch" })
+        ({ st' with s1 := s1 }, { model := v1Counts s1 })
     | _, _, _ => (st, { model := "bad-op" })
   | ["stop", actor] =>
     match actor.toNat? with
@@ -137,36 +176,39 @@ def step (st : St) (op impl : String) : St × StepOut :=
     | none => (st, { model := "bad-op" })
   | ["grant", "port"] =>
     let (s2, calls) := V2.runTask (fuelOf st) st.s2 []
-    let obs := s!"calls={showCalls calls} done=false"
-    ({ st with s2 := s2, dirty := false },
-     { model := obs, key := some s!"v2 {st.subs.length} {obs}",
+    let obs := s!"calls={showCalls st calls} done=false"
+    let (subs, bad) := oracleCalls st impl
+    ({ st with s2 := s2, dirty := false, subs := subs },
+     { model := obs, key := some s!"v2 {st.subs.length} {obs}", oracle := bad.eraseDups,
        nontrivial := decide (calls.length > 1) && s2.live.length + s2.gone.length > 1 })
   | ["grant", key] =>
-    match key.toNat? with
+    match key.toNat?.bind st.toModel with
     | some k =>
       let (s1, calls) := V1.runTask (fuelOf st) st.s1 k []
       match s1.fwds[k]? with
       | none => (st, { model := "no-such-task" })
       | some f =>
         let lagged := f.mask.any (·.isSome)
-        let subs := st.subs.map fun i =>
-          if i.key == k then { i with grantedAt := st.pubs.length, done := f.ended } else i
-        let obs := s!"calls={showCalls calls} done={f.ended} {v1Counts s1}"
+        let (subs, bad) := oracleCalls st impl
+        let subs := subs.map fun i =>
+          if st.toModel i.key == some k then { i with grantedAt := st.pubs.length, done := f.ended } else i
+        let obs := s!"calls={showCalls st calls} done={f.ended} {v1Counts s1}"
         ({ st with s1 := s1, subs := subs },
-         { model := obs, key := some s!"v1 {k} {obs}",
+         { model := obs, key := some s!"v1 {k} {obs}", oracle := bad.eraseDups,
            nontrivial := !calls.isEmpty && (lagged || f.ended || st.s1.fwds.length > 1) })
-    | none => (st, { model := "bad-op" })
+    | none => (st, { model := "no-such-task" })
   | ["seq", key] =>
-    match key.toNat? with
-    | some k =>
+    match key.toNat?, key.toNat?.bind st.toModel with
+    | some opk, some k =>
       let got := if st.isV2 then (st.s2.all.find? (·.key == k)).map (·.got)
                  else (st.s1.fwds[k]?).map (·.got)
       match got with
       | some g =>
-        (st, { model := showNats g, oracle := oracleSeq st k impl, nontrivial := !g.isEmpty,
+        (st, { model := showNats g, oracle := oracleSeq st opk impl, nontrivial := !g.isEmpty,
                key := some s!"seq {st.isV2} {k} {st.pubs.length} {showNats g}" })
       | none => (st, { model := "no-such-subscription" })
-    | none => (st, { model := "bad-op" })
+    | some _, none => (st, { model := "-", oracle := if impl == "-" then [] else ["subsequence"] })
+    | _, _ => (st, { model := "bad-op" })
   | ["dispatch", ad, dead, subs, batch] =>
     match parseBool? ad, natList? dead, listOf? subs parseSpec?, listOf? batch parseItem? with
     | some ad, some dead, some subs, some batch =>
